@@ -48,6 +48,8 @@ def _pool_from_ids(ids: list[str]) -> list[str]:
         "pixee:python/url.sandbox*",  # `.` is not a wildcard
         "pixee:python/use-*-literal",
         "*secure-random",
+        "pixee:python/*sandbox*",  # its text CONTAINS the pattern `*sandbox*`, which selects more
+        "pixee:python/*secure-random",
     ]
     out = []
     for p in want:
@@ -171,6 +173,14 @@ def run(chk: Check) -> None:
     for _ in range(chk.pick(60, 3000)):
         k = chk.rng.choice([3, 3, 4])
         extra.append(tuple(chk.rng.randrange(1, n + 1) for _ in range(k)))
+    # a pattern whose text occurs inside an earlier one, with another entry between them (order of first occurrence)
+    forced = []
+    for a, x, b in (("pixee:python/*sandbox*", "pixee:python/use-set-literal", "*sandbox*"),
+                    ("pixee:python/*secure-random", "pixee:python/use-set-literal", "*secure-random"),
+                    ("pixee:python/secure-*", "*sandbox", "pixee:python/secure-random")):
+        if all(p_ in pool for p_ in (a, x, b)):
+            forced.append(tuple(pool.index(p_) + 1 for p_ in (a, x, b)))
+    extra += forced
     cases, ids = _check_registry(chk, registry, "working-tree", pool, def_exc, 2, extra)
 
     syn = _synthetic_registry()
@@ -189,7 +199,8 @@ def run(chk: Check) -> None:
     by_inp = {}
     for sc, exp in modes:
         by_inp.setdefault((sc["inp"], len(sc["list"])), (sc, exp))
-    chosen = cheap[:e2e_n] + list(by_inp.values())
+    forced_cases = [(sc, exp) for sc, exp in cases if tuple(sc["list"]) in set(forced) and sc["kind"] == "inc"]
+    chosen = cheap[:e2e_n] + list(by_inp.values()) + forced_cases
     scenarios = []
     for k, (sc, exp) in enumerate(chosen):
         pats = [pool[i - 1] for i in sc["list"]]
@@ -219,7 +230,7 @@ def run(chk: Check) -> None:
             {
                 "id": f"C17-e2e-{k}",
                 # runs of whole eligible sets use an empty project (nothing to scan, every codemod still selected and reported)
-                "files": {"app.py": "import os\n\nx = set([1])\nprint(os.getcwd())\n"} if all(len(e) <= 6 for e in exp) else {},
+                "files": {"app.py": "import os\n\nx = set([1])\nprint(os.getcwd())\n"} if all(len(e) <= 8 for e in exp) else {},
                 "resfiles": resfiles,
                 "steps": [{"argv": argv, "expect": {"queues": [[ids[i - 1] for i in e] for e in exp]}, "keep_log": True}],
                 "_meta": {"kind": sc["kind"], "patterns": pats, "sast": sc["sast"], "inp": sc["inp"]},
